@@ -533,7 +533,6 @@ func (x *exec) contractCall(st *State, cs *callSite, fn *ssa.Function, ct *Contr
 				}
 			default:
 				vars["result0"] = specVal{V: res, T: rt}
-				vars["result"] = specVal{V: res, T: rt}
 			}
 		}
 		env := mkEnv(st, pre)
@@ -576,6 +575,10 @@ func (ct *Contract) nilable(name string) bool {
 
 func (x *exec) panicTag(ct *Contract) Term {
 	name := ct.PanicTag
+	if name == "*" {
+		t := x.ctx.fresh("panictag", SInt)
+		return t
+	}
 	if name == "" {
 		name = "OpError"
 	}
@@ -607,14 +610,41 @@ func (x *exec) modLocs(se *specEnv, cl *Clause) []modLoc {
 	e := cl.Expr
 	// contents(m): all entries of a map / all elements of a slice's backing array
 	if call, ok := e.(*ast.CallExpr); ok {
+		if id, ok := call.Fun.(*ast.Ident); ok && id.Name == "allof" {
+			// allof(i): every field of the object an interface value points to, whatever module
+			// pointer type implementing the interface it holds
+			sv := se.eval(call.Args[0])
+			iv, ok := se.rval(sv).(*IfaceV)
+			if !ok {
+				se.fail("allof() needs an interface value")
+			}
+			iface, ok := sv.T.Underlying().(*types.Interface)
+			if !ok {
+				se.fail("allof(): static type is not an interface")
+			}
+			for id := 1; id < len(x.e.tagTypes); id++ {
+				pt, isPtr := x.e.tagTypes[id].(*types.Pointer)
+				if !isPtr || !types.Implements(pt, iface) {
+					continue
+				}
+				if _, isStruct := pt.Elem().Underlying().(*types.Struct); !isStruct {
+					continue
+				}
+				for _, l := range leavesOf(pt.Elem()) {
+					o := iv.Pay
+					out = append(out, modLoc{key: heapKey(pt.Elem(), l.Path), sort: ArrSort(SInt, l.Sort), obj: &o})
+				}
+			}
+			return out
+		}
 		if id, ok := call.Fun.(*ast.Ident); ok && id.Name == "elems" {
 			// elems(T): every element of every []T backing array
-			tv := se.eval(call.Args[0])
-			if tv.T == nil {
+			tt := se.resolveType(exprString(call.Args[0]))
+			if tt == nil {
 				se.fail("elems() needs a type")
 			}
-			for _, l := range leavesOf(tv.T) {
-				out = append(out, modLoc{key: elemKey(tv.T, l.Path), sort: ArrSort(SInt, ArrSort(SInt, l.Sort))})
+			for _, l := range leavesOf(tt) {
+				out = append(out, modLoc{key: elemKey(tt, l.Path), sort: ArrSort(SInt, ArrSort(SInt, l.Sort))})
 			}
 			return out
 		}
@@ -823,7 +853,11 @@ func (x *exec) finish(st *State, out Outcome) {
 		// which panics are allowed to escape?
 		var allowed Term = False
 		if ct.MayPanic {
-			allowed = Eq(out.PVal.Tag, x.panicTag(ct))
+			if ct.PanicTag == "*" {
+				allowed = True
+			} else {
+				allowed = Eq(out.PVal.Tag, x.panicTag(ct))
+			}
 		}
 		st.frames = append(st.frames, &Frame{fn: x.topFn, env: map[ssa.Value]Val{}, names: map[string]Val{}})
 		x.oblige(st, "panic", "", "no-unexpected-panic", allowed, pos)
@@ -837,9 +871,7 @@ func (x *exec) finish(st *State, out Outcome) {
 	}
 	for i, v := range out.Vals {
 		vars[fmt.Sprintf("result%d", i)] = specVal{V: v, T: sig.Results().At(i).Type()}
-		if i == 0 {
-			vars["result"] = vars["result0"]
-		}
+
 	}
 	st.frames = append(st.frames, &Frame{fn: x.topFn, env: map[ssa.Value]Val{}, names: map[string]Val{}})
 	se := &specEnv{x: x, pkg: x.specPkg(ct), vars: vars, st: st, cur: st, old: x.entry, nq: &nq, what: "ensures of " + x.ctx.Key}
